@@ -10,6 +10,12 @@ CHECKS = {
         "The hand-written kernel model is tied to the code by an exhaustive differential (every body up to a length bound x 4 positions x 4 styles x 2 endings x dialects) judged by the extracted Coq functions.",
    design="5/C04", technique="Coq proof (induction over escape units) + exhaustive model/implementation correspondence",
    note=BASE_NOTE + "The kernel `rewrite` is hand-modelled from the two regexes in general.rs; string denotations are written from the Lua/Luau reference lexers."),
+ "C05": dict(
+   text="Theorems over all expression trees, all contexts and every mixture of the single-line and hanging layout paths (relation R): the semantic tree (grouping, multi-value truncation) is unchanged, "
+        "canonical form is preserved and canonical trees re-parse to themselves (Pratt parser proved), no unary minus meets a minus sign. The rule itself is translated from /repo's Rust by rs2v on every run and the theorems are re-proved against it; "
+        "the context flow is tied by deciding R-membership of every observed (input, output) tree pair over all depth-2 trees x 13 contexts x 4 widths.",
+   design="5/C05", technique="Coq proof over a relation covering all layouts + kernel regenerated from source (rs2v) + exhaustive tree correspondence",
+   note=BASE_NOTE + "rs2v (syn-based translator, ~250 lines) is trusted; the context flow (which context each operand receives) is hand-modelled and tied by correspondence."),
 }
 PENDING = {}
 def main():
